@@ -448,7 +448,28 @@ WRAPPERS = {"array", "asarray", "list", "tuple"}
 def collect_list(fl, value, node, depth=4):
     """Elements of a list-valued expression as [(expanded element, expanded iteration source or None)];
     understands literals, single-generator comprehensions, `L = []` + `L.append(x)` in loops, and
-    np.array/list/tuple wrappers.  None = construction not recognised."""
+    np.array/list/tuple wrappers.  None = construction not recognised.
+    An element that was chosen by an if/else before it was appended (`if c: x = a / else: x = b; L.append(x)`) comes back as the
+    conditional expression `a if c else b` it computes (gated expansion)."""
+    old = getattr(fl, "gated", False)
+    fl.gated = True
+    try:
+        res = _collect_list(fl, value, node, depth)
+    finally:
+        fl.gated = old
+    if res is None:
+        return None
+
+    class G(ast.NodeTransformer):
+        def visit_Call(self, n):
+            n = self.generic_visit(n)
+            if call_name(n) == "__gamma__" and len(n.args) == 3:
+                return ast.copy_location(ast.IfExp(test=n.args[0], body=n.args[1], orelse=n.args[2]), n)
+            return n
+    return [(G().visit(copy.deepcopy(e)), it) for e, it in res]
+
+
+def _collect_list(fl, value, node, depth=4):
     v = value
     while isinstance(v, ast.Call) and call_name(v) in WRAPPERS and v.args:
         v = v.args[0]
@@ -496,7 +517,7 @@ def collect_list(fl, value, node, depth=4):
         init = how[1]
         built = fl._loop_built(v.id, d, node)
         if built is not None and isinstance(built, ast.ListComp):
-            return collect_list(fl, built, node, depth - 1)
+            return _collect_list(fl, built, node, depth - 1)
         if isinstance(init, ast.List) and not init.elts:
             out = []
             for n in fl.cfg.nodes:
@@ -514,7 +535,7 @@ def collect_list(fl, value, node, depth=4):
                                     it = ast.Call(func=ast.Name(id="__filtered__", ctx=ast.Load()), args=[it], keywords=[])
                             out.append((fl.expand(c.args[0], n), it))
             return out
-        return collect_list(fl, init, d, depth - 1)
+        return _collect_list(fl, init, d, depth - 1)
     return None
 
 
